@@ -24,6 +24,7 @@ TREE = {
     "inc2.mac": ".byte 7\n.byte 10\n",
     "incerr.mac": "lab:\tnop\n\t.word 200000\n\tnop\n",
     "f5.bin": b"\x01\x02\x03\x04\x05",
+    "lit.mac": "\t.byte '\u0451\n\t.word \"\u044f\u044e\n\t.ascii /\u0451\u2500/\n\t.even\n",
 }
 
 # ---- events: (name, kind, payload) -------------------------------------------------------------------------------------------------
@@ -61,6 +62,22 @@ EVENTS = [
     ("cli-w-overlap-1", "cli", (["m.mac", "-o", "o.bin", "-Wall", "-Wno-meta-typo", "-Wno-legacy-deferred", "--report-format", "bare"], {"m.mac": "\tword 5\n\tclr @r0\n\t.word\n"})),
     ("cli-w-overlap-2", "cli", (["m.mac", "-o", "o.bin", "-Wno-meta-typo", "-Wno-default", "-Wall", "-Wno-excess-hash"], {"m.mac": "\tword 5\n\tclr @r0\n\t.word\n\temt #1\n"})),
     ("cli-w-overlap-3", "cli", (["m.mac", "-o", "o.bin", "-Wmeta-typo", "-Wno-all", "-Wimplicit-operand"], {"m.mac": "\tword 5\n\tclr @r0\n\t.word\n"})),
+    # token trees, codec objects, tables and counters that an implementation might keep between runs
+    ("caret-nested", "asm", [("m.mac", "\t.word ^/ ^|1| + 1 /\n\t.word ^|2| + ^/3/\n")]),
+    ("caret-top", "asm", [("m.mac", "\t.word ^|6/2|\n\tmov #^|x / 3|, r0\n\t.word ^/6|1/\nx = 11\n")]),
+    ("bare-meta-names", "asm", [("m.mac", "list = 7\n\tlist, 5\npage:\tnop\neven = 2\n\t.word even\n")]),
+    ("meta-without-dot", "asm", [("m.mac", "\tlist\n\tpage\n\tbyte 1\n\teven\n\tnop\n")]),
+    ("charlit-bk", "asm", [("m.mac", "\t.byte '\u0451\n\t.include \"lit.mac\"\n\tmov #'\u044f, r0\n")]),
+    ("charlit-koi", "asm-koi8", [("m.mac", "\t.byte '\u0451\n\t.include \"lit.mac\"\n\tmov #'\u044f, r0\n")]),
+    ("charlit-utf8", "asm-utf8", [("m.mac", "\t.word '\u0451\n\t.include \"lit.mac\"\n\tmov #'\u044f, r0\n")]),
+    ("exports", "asm", [("m.mac", "alpha::\tnop\nbeta == 12\n\t.extern gamma\ngamma:\tnop\n"), ("n.mac", "\tmov alpha, r0\n\t.word beta, gamma\n")]),
+    ("private-same-names", "asm", [("m.mac", "alpha:\tnop\nbeta = 13\ngamma:\tnop\n"), ("n.mac", "\tmov alpha, r0\n\t.word beta, gamma\n")]),
+    ("exports-again-other-file", "asm", [("m.mac", "\tnop\n"), ("n.mac", "alpha::\tnop\nbeta == 14\n\t.word alpha, beta\n")]),
+    ("many-regions", "asm", [("m.mac", "".join("g%d:\tnop\n1$:\tbr 1$\n12:\tbr 12\n" % i for i in range(14)))]),
+    ("cli-wav", "cli", (["m.mac"], {"m.mac": P_VALID + "make_wav \"n.wav\", \"NORMAL\"\n"})),
+    ("cli-turbo-wav", "cli", (["m.mac"], {"m.mac": P_VALID + "make_turbo_wav \"t.wav\", \"TURBO\"\n"})),
+    ("cli-both-wav", "cli", (["m.mac"], {"m.mac": P_VALID + "make_turbo_wav \"t.wav\"\nmake_wav \"n.wav\"\nmake_bin\n"})),
+    ("cli-charset-koi", "cli", (["m.mac", "-o", "k.bin", "--charset", "koi8-r"], {"m.mac": "\t.ascii /\u0451/\n\t.byte '\u0451\n"})),
     ("cli-critical", "cli", (["m.mac", "--implicit-bin"], {"m.mac": "\tnop\n\t.ascii \"abc\n"})),
 ]
 
@@ -81,12 +98,12 @@ def run_event(i):
     driver._scratch_root = (os.getpid(), SCRATCH)
     os.makedirs(os.path.join(SCRATCH, "m"), exist_ok=True)
     driver.write_tree(os.path.join(SCRATCH, "m"), TREE)
-    if kind in ("asm", "asm-koi8", "abort"):
+    if kind in ("asm", "asm-koi8", "asm-utf8", "abort"):
         if kind == "abort":
             at, files = payload
         else:
             at, files = None, payload
-        out = assemble(files, charset="koi8-r" if kind == "asm-koi8" else "bk", abort_at=at, reset=False)
+        out = assemble(files, charset={"asm-koi8": "koi8-r", "asm-utf8": "utf-8"}.get(kind, "bk"), abort_at=at, reset=False)
         reps = []
         for sev, k, spans in out.reports:
             reps.append([sev, k, [[norm(s[6]), norm(s[7])] for s in spans]])
